@@ -3,9 +3,9 @@ import AM.Rx.Theory
 namespace AM.Rx
 
 /-- `.` : any byte but `\n` -/
-def clsAny : Cls := [(0, 9), (11, 255)]
+def clsAny : Cls := [(0, 9), (11, 1114111)]
 /-- `\S` -/
-def clsNonSpace : Cls := [(0, 8), (11, 11), (14, 31), (33, 255)]
+def clsNonSpace : Cls := [(0, 8), (11, 11), (14, 31), (33, 1114111)]
 /-- `\s` -/
 def clsSpace : Cls := [(9, 10), (12, 13), (32, 32)]
 /-- `\d` -/
@@ -26,7 +26,14 @@ theorem mem_ranges1 (a b : Nat) (ch : Char) :
     Cls.mem [(a, b)] ch = true ↔ a ≤ ch.toNat ∧ ch.toNat ≤ b := by
   simp [Cls.mem]
 
-theorem clsAny_mem (ch : Char) : clsAny.mem ch = true ↔ ch.toNat ≠ 10 ∧ ch.toNat ≤ 255 := by
+theorem char_lt (c : Char) : c.toNat < 0x110000 := by
+  have := c.valid
+  simp only [UInt32.isValidChar, Nat.isValidChar] at this
+  have h : c.toNat = c.val.toNat := rfl
+  omega
+
+theorem clsAny_mem (ch : Char) : clsAny.mem ch = true ↔ ch.toNat ≠ 10 := by
+  have := char_lt ch
   simp only [clsAny, Cls.mem, List.any_cons, List.any_nil, Bool.or_false, Bool.or_eq_true,
     Bool.and_eq_true, decide_eq_true_eq]
   omega
